@@ -10,6 +10,7 @@ CONSTANT MaxSingle     \* single-component kinds: 0..MaxSingle vertices
 CONSTANT PolyLens      \* Polygon: admissible loop lengths (each >= 3)
 CONSTANT MaxPolyLoops  \* Polygon: 1..MaxPolyLoops loops, every nesting of depth <= 2
 CONSTANT BigPoly       \* Polygon: additional loop counts (beyond the linear-search limit of 12)
+CONSTANT BigLax        \* LaxPolygon: additional loop counts (beyond 12), with empty loops among them
 
 NoHoles(n) == [i \in 1..n |-> FALSE]
 ZeroDepth(n) == [i \in 1..n |-> 0]
@@ -28,6 +29,17 @@ BigDepths(k) == { ZeroDepth(k),
                   [i \in 1..k |-> (i + 1) % 2],
                   [i \in 1..k |-> IF i = 1 THEN 0 ELSE IF i % 2 = 0 THEN 1 ELSE 2] }
 
+\* Chain-length vectors for a LaxPolygon of k loops in which some loops are empty (the full
+\* loop: a chain of length 0): empty loops at the start, in the middle and at the end,
+\* single-vertex loops right after an empty one, two consecutive empty loops, the full
+\* polygon with k-1 point holes, only empty loops.
+BigLaxVectors(k) ==
+    {[i \in 1..k |-> (i + s) % 4] : s \in 0..3}
+    \cup {[i \in 1..k |-> IF (i + s) % 5 < 2 THEN 0 ELSE 1 + (i % 2)] : s \in 0..4}
+    \cup {[i \in 1..k |-> IF i = e THEN 0 ELSE 1] : e \in {1, 2, (k + 1) \div 2, k - 1, k}}
+    \cup {[i \in 1..k |-> IF i \in {e, e + 1} THEN 0 ELSE 1 + (i % 3)] : e \in {1, k \div 2, k - 1}}
+    \cup {[i \in 1..k |-> IF i \in {1, k} THEN 0 ELSE 3], [i \in 1..k |-> 0], [i \in 1..k |-> 1]}
+
 ShapesOf(kind) ==
     CASE kind \in {"PointVector", "Polyline", "LaxPolyline", "LaxLoop"} ->
             {Mk(kind, <<n>>, <<0>>) : n \in 0..MaxSingle}
@@ -36,6 +48,7 @@ ShapesOf(kind) ==
       [] kind \in {"FullLoop", "FullPolygon"} -> {Mk(kind, <<0>>, <<0>>)}
       [] kind = "LaxPolygon" ->
             UNION {{Mk(kind, vc, ZeroDepth(k)) : vc \in [1..k -> 0..MaxLen]} : k \in 0..MaxChains}
+            \cup UNION {{Mk(kind, vc, ZeroDepth(k)) : vc \in BigLaxVectors(k)} : k \in BigLax}
       [] kind = "Polygon" ->
             UNION {{Mk(kind, vc, d) : vc \in [1..k -> PolyLens], d \in DepthSeqs(k)} : k \in 1..MaxPolyLoops}
             \cup
